@@ -28,6 +28,10 @@ def run(run, model):
     run.do(c04.override_target, model, "C02.inherited-post-target", ("__postconditions__", "__postcondition_snapshots__"))
     run.do(c18.find_rule, model, "C02.single-checker")
     run.do(gates.c08_place, model, "C02.old-available")
+    from . import c05, c09
+    run.do(c05.pos_table, model, "C02.args-table", "C02.posonly")
+    run.do(c09.dispatch_table, model, "C02.error-dispatch")
+    run.do(meta.snapshot_provenance, model, "C02.old-inherited")
     run.minimum("C02.gate", 2)
     run.minimum("C02.result-identity", 11, "two returns per marker wrapper, one in the __new__ wrapper")
     run.minimum("C02.exc-transparent", 11)
